@@ -807,7 +807,7 @@ theorem groupsWith_deterministic (s : AccGroup) (less : Bytes → Bytes → Bool
 
 /-! ### every reachable aggregator is well-formed -/
 
-theorem wf_init : AccWF {} :=
+theorem accwf_init : AccWF {} :=
   ⟨by simp [AccGroup.dataCols], by intro k j; simp [AccGroup.dataCols], by intro k row h; simp at h,
    by simp [AccGroup.groupCols]⟩
 
@@ -942,7 +942,7 @@ theorem wf_apply (s s' : AccGroup) (wf : AccWF s) (op : AccOp) (err : Option Str
 
 theorem reach_accwf {s : AccGroup} (h : AccReach s) : AccWF s := by
   induction h with
-  | init => exact wf_init
+  | init => exact accwf_init
   | step s s' op err _ hstep ih => exact wf_apply s s' ih op err hstep
 
 
@@ -1152,7 +1152,7 @@ theorem cfg_applyAll (ops : List AccOp) (hcfg : ∀ op ∈ ops, op.isSample = fa
       | some kb => exact ⟨wf_setSort s inv.wf (some kb), inv.nodata, inv.groups, inv.gok, inv.cols, inv.dok⟩
     | sample e => have := hcfg (.sample e) (by simp); simp [AccOp.isSample] at this
 
-theorem cfg_init : CfgInv {} [] [] := ⟨wf_init, rfl, rfl, by simp, rfl, by simp⟩
+theorem cfg_init : CfgInv {} [] [] := ⟨accwf_init, rfl, rfl, by simp, rfl, by simp⟩
 
 
 /-! ### model level: commutation, accessors -/
